@@ -703,7 +703,9 @@ fn scenario_window(args: &Args, report: &mut Report) {
     }
     let mut a = Client::new(IpAddr::V4(Ipv4Addr::new(127, 0, 3, 1)), tracker.v4).unwrap();
     let mut b = Client::new(IpAddr::V4(Ipv4Addr::new(127, 0, 3, 2)), tracker.v4).unwrap();
-    let mut a2 = Client::new(IpAddr::V4(Ipv4Addr::new(127, 0, 3, 1)), tracker.v4).unwrap(); // same ip, other port
+    // same ip, other source ports: a dozen of them, so that with several socket workers (SO_REUSEPORT hashes the
+    // source port too) some certainly reach a worker other than the one that issued the id
+    let mut others: Vec<Client> = (0..12).map(|_| Client::new(IpAddr::V4(Ipv4Addr::new(127, 0, 3, 1)), tracker.v4).unwrap()).collect();
     let id = match a.connect(seq.next()) {
         Some(i) => i,
         None => {
@@ -719,7 +721,11 @@ fn scenario_window(args: &Args, report: &mut Report) {
             report.inconclusive("no time refresh observed");
             return;
         }
-        for (who, c, expect) in [("issuing address", &mut a, want), ("same ip, other source port", &mut a2, want), ("other address", &mut b, false)] {
+        let mut targets: Vec<(&str, &mut Client, bool)> = vec![("issuing address", &mut a, want), ("other address", &mut b, false)];
+        for c in others.iter_mut() {
+            targets.push(("same ip, other source port", c, want));
+        }
+        for (who, c, expect) in targets {
             let got = ask(c, &announce_bytes(id, seq.next(), h, 1234, 0, 1, 0, [0; 4]), if expect { 1500 } else { 250 }).is_some();
             report.eval();
             if got != expect {
